@@ -118,6 +118,16 @@ class Func:
             b = idom.get(b)
         return None
 
+    def cells(self):
+        """source variable name -> Alloc instructions of its cell(s)"""
+        if getattr(self, '_cells', None) is None:
+            self._cells = {}
+            for b in self.blocks:
+                for ins in b['instrs']:
+                    if ins['op'] == 'Alloc' and ins.get('comment'):
+                        self._cells.setdefault(ins['comment'], []).append(ins)
+        return self._cells
+
     def defs(self):
         """register -> (block, index, instr)"""
         if self._defs is None:
